@@ -141,9 +141,11 @@ def case(ctx, rng, idx, state):
     adpt_fac = int(rng.integers(1, 3))
     Ef = runkit.fermi_grid(rng, system, n=4)
     calcs = runkit.make_calculators(rng, system, Ef, nmax=2, allow_tetra=False)
-    base_kw = dict(adpt_mesh=adpt_mesh, adpt_fac=adpt_fac, use_irred_kpt=use_irred, symmetrize=use_irred,
+    klist_part = int(rng.choice([1, 2, 3, 7, 10, 1000]))    # the K-point list is pickled in portions of this size
+    ctx.count(f"Klist_part_{'small' if klist_part < 10 else 'default_or_large'}")
+    base_kw = dict(Klist_part=klist_part, adpt_mesh=adpt_mesh, adpt_fac=adpt_fac, use_irred_kpt=use_irred, symmetrize=use_irred,
                    allow_restart=(storage == "allow_restart"), dump_results=(storage == "dump_results"))
-    wit = dict(info, n=n, NKdiv=div, NKFFT=fft, use_irred_kpt=use_irred, storage=storage, adpt_fac=adpt_fac, calculators=sorted(calcs), Efermi=Ef)
+    wit = dict(info, n=n, Klist_part=klist_part, NKdiv=div, NKFFT=fft, use_irred_kpt=use_irred, storage=storage, adpt_fac=adpt_fac, calculators=sorted(calcs), Efermi=Ef)
     tmp = os.path.join(env.WORK, f"c11-{os.getpid()}-{idx}")
     os.makedirs(tmp, exist_ok=True)
     modes_all = ["sorted", "reversed", "fs", "random", "random", "random"]
